@@ -160,3 +160,18 @@ Proof.
   assert (r' = r) by congruence; subst r'. assert (v' = v) by congruence; subst v'.
   exists row, row', v. repeat split; assumption.
 Qed.
+
+(* non-vacuity on C19Final.C19_ex (inputs x y z, outputs NOT(OR(x AND y, x AND y, z)) and x AND y):
+   x := True, z := False leaves the input y; columns 4 and 6 of the old table *)
+Lemma C19_ex_entry :
+  arity_ok C19_ex /\
+  cofactor_list T F (inputs C19_ex) ["x"] ["z"] [F] = [T; F; F] /\
+  exists c', replace_inputs C19_ex ["x"] ["z"] = Ok c' /\
+    evaluate c' [F] = Ok [T; F] /\ evaluate C19_ex [T; F; F] = Ok [T; F] /\
+    get_truth_table c' = Ok [[T; F]; [F; T]] /\
+    get_truth_table C19_ex = Ok [[T; F; T; F; T; F; F; F]; [F; F; F; F; F; F; T; T]].
+Proof.
+  split; [apply arity_okb_sound; vm_compute; reflexivity|].
+  split; [vm_compute; reflexivity|].
+  eexists; split; [vm_compute; reflexivity|]. repeat split; vm_compute; reflexivity.
+Qed.
